@@ -1632,7 +1632,10 @@ impl CanonicalizeContext {
 			let open = mfenced.attribute_value("open").unwrap_or("(").replace('<', "⟨");
 			let close = mfenced.attribute_value("close").unwrap_or(")").replace('>', "⟩");
 			// debug!("open={}, close={}", open, close);
-			let mut separators= mfenced.attribute_value("separators").unwrap_or(",").chars();
+			// MathML: whitespace in 'separators' is ignored and an empty 'separators' attribute means there are no separators
+			let separators_attr = mfenced.attribute_value("separators").unwrap_or(",");
+			let has_separators = separators_attr.chars().any(|ch| !ch.is_whitespace());
+			let mut separators= separators_attr.chars().filter(|ch| !ch.is_whitespace());
 			set_mathml_name(mfenced, "mrow");
 			mfenced.remove_attribute("open");
 			mfenced.remove_attribute("close");
@@ -1645,8 +1648,10 @@ impl CanonicalizeContext {
 			if !children.is_empty() {
 				new_children.push(children[0]);
 				for child in &children[1..] {
-					let sep = separators.next().unwrap_or(',').to_string();
-					new_children.push( ChildOfElement::Element( create_mo(mfenced.document(), &sep, MFENCED_ATTR_VALUE)) );
+					if has_separators {
+						let sep = separators.next().unwrap_or(',').to_string();
+						new_children.push( ChildOfElement::Element( create_mo(mfenced.document(), &sep, MFENCED_ATTR_VALUE)) );
+					}
 					new_children.push(*child);
 				}
 			}
